@@ -83,8 +83,8 @@ CHECKS = {
     "C18": dict(
         technique="TLC enumeration of size-parameterised input families (Work.tla) -> work counters of the real parser (Tokenizer calls counted while the public parse_string runs); recorded series validated by TLC against the linear-growth law (WorkLaw.tla)",
         level="model_checking",
-        text="Work.tla builds families from 30 nesting constructors (alone; pairwise alternating in thorough; as expressions, as case patterns and in del/assignment/for/with-as/comprehension target positions) 13 block constructors nested by indentation and 30 chains, each valid and with 5 breakers (unclosed, wrong closer, doubled token, missing operand, trailing garbage), at doubling sizes; the same constructs after a flat prefix of 3000 statements (what precedes a construct must not change its cost) and deep nests at the default recursion limit; TLC enumerates them. Every program is parsed through parse_string with getnext/peek/reset counted on the Tokenizer class (a restart or second tokenizer is included); TLC validates the (size, tokens, getnext+peek+reset) series of each family against WorkLaw.tla: a doubling costs at most 2.6x + 4000 calls and no point exceeds 2500 calls per token. A series cut by the work budget counts as unbounded.",
-        note="Empirical growth law over the composed family set, constants fixed from the baseline with head-room; 'no input family' is approximated, not proved. One known finding (invalid input around nested brackets); nested case patterns were repaired.",
+        text="Work.tla builds families from 33 nesting constructors and 3 kinds of groups nested inside a subprocess (alone; pairwise alternating in thorough; as expressions, as case patterns and in del/assignment/for/with-as/comprehension target positions) 13 block constructors nested by indentation and 33 chains (three of them one token long: time-outs count), each valid and with 6 breakers (unclosed, wrong closer, doubled token, missing operand, trailing garbage, a rejected LATER statement), at doubling sizes; the same constructs after a flat prefix of 3000 statements (what precedes a construct must not change its cost) and deep nests at the default recursion limit; TLC enumerates them. Every program is parsed through parse_string with getnext/peek/reset counted on the Tokenizer class (a restart or second tokenizer is included); TLC validates the (size, tokens, getnext+peek+reset) series of each family against WorkLaw.tla: a doubling costs at most 2.6x + 4000 calls and no point exceeds 2500 calls per token. A series cut by the work budget counts as unbounded.",
+        note="Empirical growth law over the composed family set, constants fixed from the baseline with head-room; 'no input family' is approximated, not proved. No known finding left: invalid input around nested brackets (memoized named_expression), unclosed subprocess groups (memoized cmd_group) and nested case patterns were repaired.",
         ref="5/C18"),
     "C14": dict(
         technique="TLC enumeration of statement sequences from StmtSeq.tla -> composition law checked on the real parser; tree pairs (whole vs shifted parts) trace-validated by TLC (AstEq.tla)",
